@@ -6,6 +6,7 @@
 //                                  2: failure differs from expectation
 //   sim.bin shrink FILE OUT        greedy minimisation, same failure class
 //   sim.bin mm     --seed S --count n [--thorough]   (C18 harness, mm.cc)
+//   sim.bin ctr    --prop C06|C07 --seed S --count n   (counter-array harness, ctr.cc)
 #include "world.h"
 
 #include <unistd.h>
@@ -26,6 +27,7 @@
 using namespace sim;
 
 extern int mmMain(int argc, char** argv);
+extern int ctrMain(int argc, char** argv);
 
 // classify sanitizer aborts by exit code 77 (see check.py)
 extern "C" __attribute__((used)) const char* __asan_default_options()
@@ -581,6 +583,7 @@ int main(int argc, char** argv)
     const std::string cmd = argv[1];
 
     if (cmd == "mm") return mmMain(argc, argv);
+    if (cmd == "ctr") return ctrMain(argc, argv);
 
     if (cmd == "batch") {
         GenOptions go;
